@@ -18,7 +18,7 @@ import (
 // behind the sort's back.
 func runSwapOnlyBySort(p *core.Program, r *core.Report) {
 	const rule = "SWAP-ONLY-BY-SORT"
-	swap := p.Method(pkgEval, "slice", "Swap")
+	swap := p.Method(pkgEval, orderSorterName(p, builtinFn(p, "eval:order", pkgEval, "order")), "Swap")
 	if !r.Anchor(rule, "(*eval.slice).Swap", swap != nil) {
 		return
 	}
